@@ -45,7 +45,10 @@ Inductive event :=
       (* CancelScope.__exit__ returned: cancel_called(), cancelled_caught(), task.cancelling(), return value,
          class of the exception it was given (0 none, 1 CancelledError, 2 TimeoutError, 3 other) *)
 | EvCatch (id t : nat) (exc : nat)               (* an except clause of the program caught exc *)
-| EvExt (t : nat).                               (* the controller's task.cancel() returned True at time t *)
+| EvExt (t n : nat) (sh : bool)                  (* the controller's task.cancel() returned True at time t; n = number of
+                                                    active scopes whose cancel() had already been called at that moment;
+                                                    sh = the task was inside ignore_cancellation / a shielded yield *)
+| EvCancel (id t : nat).                         (* the program called cancel() on the scope opened by statement id *)
 
 Definition exn_code (e : exn) : nat := match e with ECancel _ => 1 | ETimeout => 2 | EAssert => 3 end.
 Definition oexn_code (e : option exn) : nat := match e with None => 0 | Some e => exn_code e end.
@@ -564,6 +567,14 @@ Definition catches (c : ckind) (e : exn) : bool :=
 
 Definition push (st : state) (f : frame) : state := set_frames st (f :: frames st).
 
+(* the statement id of the frame that opened scope sid *)
+Fixpoint scope_node (k : list frame) (sid : nat) : nat :=
+  match k with
+  | [] => 0
+  | FScope id _ s :: k' => if Nat.eqb s sid then id else scope_node k' sid
+  | _ :: k' => scope_node k' sid
+  end.
+
 Definition exec (st : state) (p : prog) : state :=
   match p with
   | PSkip => set_md st (MRun CRet)
@@ -586,7 +597,10 @@ Definition exec (st : state) (p : prog) : state :=
       let st := emit st (EvStart id (time st)) in
       set_md (push st (FShield id ShRun None false)) (MRun (CExec body))
   | PCancel k =>
-      let st := match nth_scope st k with Some sid => scope_cancel st sid | None => st end in
+      let st := match nth_scope st k with
+                | Some sid => emit (scope_cancel st sid) (EvCancel (scope_node (frames st) sid) (time st))
+                | None => st
+                end in
       set_md st (MRun CRet)
   | PResched k d =>
       let when := match d with Some d => Some (time st + d) | None => None end in
@@ -734,7 +748,8 @@ Definition run_cb (st : state) (f : nat) (c : cb) : state :=
 Definition in_shield (st : state) : bool :=
   existsb is_shield (frames st) || match frames st with FWait (WShYield _) :: _ => true | _ => false end.
 Definition note_ext (st : state) : state :=
-  let st := emit (set_g_ext st (S (g_ext st))) (EvExt (time st)) in
+  let st := emit (set_g_ext st (S (g_ext st)))
+                 (EvExt (time st) (length (filter (fun k => s_called (get_scope st k)) (sstack st))) (in_shield st)) in
   if in_shield st then set_g_owed st true else st.
 
 Definition run_handle (st : state) (k : hkind) : state :=
